@@ -229,7 +229,9 @@ def check(run):
     # connection goroutines (set-up worker, reader of each session) share nothing they should not: packets cut into two segments,
     # with every other session busy in between, are framed as if they had arrived whole (a deterministic form of overlapping reads)
     from checks import brokerlib
+    brokerlib.framing_model(run)
     sscns = brokerlib.segmented(cuts=(1, 2, 3) if not thorough else (1, 2, 3, 4, 5, 8, 13))
+    sscns += brokerlib.framing(run, 60 if not thorough else 1200, maxseg=3)
     stp, crashes = brokerlib.execute(run, sscns, "c20seg", shards=12)
     if crashes:
         raise vlib.Inconclusive("broker driver died: %s" % crashes[0][2][-2000:])
@@ -239,7 +241,10 @@ def check(run):
     rc = v.finish()
     vlib.write_evidence(run, {
         "segmented_packets": {"scenarios": len(sscns), "events": snev, "rejections": len(sgrej),
-                              "rule": "a CONNECT / PUBLISH arrives in two segments; between them 21 other sessions ping or connect; BrokerTrace.tla judges the run as usual"},
+                              "rule": "a CONNECT / PUBLISH arrives in two segments; between them 21 other sessions ping or connect; plus TLC-generated delivery schedules "
+                                      "(FramingGen: the streams of two connections set up by the same worker, cut at every offset class that matters to a decoder, up to 3-4 "
+                                      "segments each, interleaved in every order); Framing.tla model-checked with its negative control (a shared header buffer); BrokerTrace.tla "
+                                      "judges the runs as usual"},
         "hasty_clients": {"interleavings": rn, "parked_at_their_gate": rparked, "events": rnev, "rejections": rrej},
         "traces_validated_against_impl": validated + sval,
         "evaluations": nhist + nstress,
